@@ -54,7 +54,11 @@ func VerifPlainDirDeterminism() {
 	var links []dagpb.PBLink
 	for i := 0; i < k; i++ {
 		name := string(rune('a'+i)) + "n"
-		l, err := builder.BuildUnixFSDirectoryEntry(name, int64(verifrt.U64()&0x7f), fakeLink(i))
+		target := fakeLink(i)
+		if i > 0 && verifrt.Choose(2) == 1 {
+			target = fakeLink(i - 1) // distinct names may point at one target
+		}
+		l, err := builder.BuildUnixFSDirectoryEntry(name, int64(verifrt.U64()&0x7f), target)
 		verifrt.Assert(err == nil, "entry-builds")
 		links = append(links, l)
 	}
